@@ -67,8 +67,8 @@ type c5w struct {
 	cname   string
 	kind    map[string]string // Go variable -> "dec" | "prim" | "arr" | "log" | "err" | "okflag"
 	arrLen  map[string]int64
-	rdParam string // name of the io.Reader / io.Writer parameter
-	isBR    string // Coq name of the boolean parameter "<param> is an io.ByteReader" ("" until used)
+	rdParam string            // name of the io.Reader / io.Writer parameter
+	isBR    string            // Coq name of the boolean parameter "<param> is an io.ByteReader" ("" until used)
 	known   map[string]string // translated functions: "Recv.Name" -> Coq name
 	aux     *bytes.Buffer
 	pending string // Go name of an error variable bound by an I/O call and not yet checked / returned
